@@ -45,7 +45,7 @@ func init() {
 		Header:         "From ZenoV Require Import Lib.Harness Lib.Hex Queue.HopsPath Queue.Batcher Queue.QueueHarness.\n",
 		CaseType:       "hcase",
 		Footer:         "\nDefinition DIFF := Eval vm_compute in hdiffs cases.\nPrint DIFF.\nDefinition MON := Eval vm_compute in hmons cases.\nPrint MON.\n",
-		Rule:           "one case = one run of the real hq source (consumer, producer, finisher, websocket goroutines, real gocrawlhq client) in its own process against a fake crawl HQ that answers the k-th add / delete / get request as a generated fault sequence says (O ok, 5 = 503, R = connection reset, S = stall until the client's 5 s timeout, L = accepted but the answer is lost; runs of 1..2 failures everywhere, and in ~30% of the cases an outage: the same add, delete or get request fails 3..6 times in a row before it succeeds): batch size 1..5, workers 1..25 (1 or 2 senders), 1..14 outlinks (texts from a pool incl. unparsable, non-ASCII, duplicates; hops 0..300) produced back to back with optional waits that force timer-triggered flushes, accepted URLs handed out again on get, seeds finished (0..2 children) or held by a plan; in ~22% of the cases the outlinks are what the REAL preprocess/postprocess return for a seed tree with a scripted archiver (page behind 0..3 redirects, links in the page's HTML and/or in the JSON document of a child asset), in ~35% finished seeds pass through the REAL finisher workers, in ~12% pause.Pause()/Resume() is called while a finisher worker is stuck handing a seed to the source during a DELETE outage; distinct by input; non-trivial when at least one request failed and was retried AND at least one batch left on the timer (smaller than the batch size)",
+		Rule:           "one case = one run of the real hq source (consumer, producer, finisher, websocket goroutines, real gocrawlhq client) in its own process against a fake crawl HQ that answers the k-th add / delete / get request as a generated fault sequence says (O ok, 5 = 503, R = connection reset, S = stall until the client's 5 s timeout, L = accepted but the answer is lost; runs of 1..2 failures everywhere, and in ~30% of the cases an outage: the same add, delete or get request fails 3..6 times in a row before it succeeds): batch size 1..5, workers 1..25 (1 or 2 senders), 1..14 outlinks (texts from a pool incl. unparsable, non-ASCII, duplicates; hops 0..300) produced back to back with optional waits that force timer-triggered flushes, accepted URLs handed out again on get, seeds finished (0..2 children) or held by a plan; in ~22% of the cases the outlinks are what the REAL preprocess/postprocess return for a seed tree with a scripted archiver (page behind 0..3 redirects, links in the page's HTML and/or in the JSON document of a child asset), in ~35% finished seeds pass through the REAL finisher workers, in ~16% the consumer runs with --hq-batch-concurrency 2..4 (batch size >= concurrency) and single sub-fetches of a round fail while their siblings are served, in ~12% pause.Pause()/Resume() is called while a finisher worker is stuck handing a seed to the source during a DELETE outage; distinct by input; non-trivial when at least one request failed and was retried AND at least one batch left on the timer (smaller than the batch size)",
 		Gen:            genHQFlow,
 		Exec:           execHQFlow,
 		Shrink:         shrinkHQFlow,
@@ -107,7 +107,7 @@ func hqSpecOf(in string) (string, bool) {
 		BSize: atoiDef(h.kv["b"], 2), Workers: atoiDef(h.kv["w"], 1), Items: h.items, Steps: h.steps,
 		AddF: h.kv["addf"], DelF: h.kv["delf"], GetF: h.kv["getf"], Consume: h.kv["c"] == "1", Fin: h.kv["fin"],
 		Dir: "@DIR@", WaitMs: atoiDef(h.kv["wait"], 25000),
-		PP: h.kv["pp"], PPHops: atoiDef(h.kv["ph"], 0), RealFin: h.kv["rf"] == "1", PauseOutage: h.kv["pz"] == "1",
+		GetConc: atoiDef(h.kv["gc"], 0), PP: h.kv["pp"], PPHops: atoiDef(h.kv["ph"], 0), RealFin: h.kv["rf"] == "1", PauseOutage: h.kv["pz"] == "1",
 	}
 	if h.kv["wait"] == "" {
 		// watchdog for "not delivered": two timer periods for the producer and two for the finisher,
@@ -328,9 +328,46 @@ func genHQFlow(r *Rng, i int, tier string) string {
 		}
 		delf = run.String() + "O"
 		extra = " rf=1 pz=1"
-	case k < 55:
+	case k < 50:
 		if consume && !anyBad {
 			extra = " rf=1"
+		}
+	case k < 66:
+		// --hq-batch-concurrency 2..4: a fetch round is several concurrent gets of bsize/k URLs; one of
+		// them fails (503, reset, now and then a stall to the client's timeout) while its siblings are
+		// served - everything the HQ handed out must still become a seed and be acknowledged
+		gc := 2 + r.Intn(3)
+		bsize = gc * (1 + r.Intn(2))
+		if r.Chance(30) {
+			bsize++
+		}
+		n := bsize * (1 + r.Intn(2))
+		if n > 14 {
+			n = bsize
+		}
+		items, steps = nil, nil
+		for j := 0; j < n; j++ {
+			items = append(items, fmt.Sprintf("%x,%x,%d", fmt.Sprintf("http://gc.test/%d?b=2&a=1", j), pickVia(r, false), pickHops(r)))
+			steps = append(steps, fmt.Sprintf("P%d", j))
+		}
+		consume = true
+		if r.Chance(70) {
+			fin = []string{"0", "1", "01"}[r.Intn(3)]
+		} else {
+			fin = "H"
+		}
+		var g strings.Builder
+		for j := 0; j < 1+r.Intn(3); j++ {
+			g.WriteString([]string{"5", "R", "O5", "OR", "55", "OO5", "5R"}[r.Intn(7)])
+			if r.Chance(6) {
+				g.WriteString("S")
+			}
+			g.WriteString("O")
+		}
+		getf = g.String()
+		extra = fmt.Sprintf(" gc=%d", gc)
+		if fin != "H" && r.Chance(40) {
+			extra += " rf=1"
 		}
 	}
 	c := 0
@@ -355,7 +392,7 @@ func shrinkHQFlow(in string) []string {
 		}
 		base := fmt.Sprintf("b=%s w=%s c=%s fin=%s addf=%s delf=%s getf=%s items=%s steps=%s", kv["b"], kv["w"], kv["c"], kv["fin"], kv["addf"], kv["delf"], kv["getf"],
 			strings.Join(it, ";"), strings.Join(steps, ","))
-		for _, k := range []string{"pp", "ph", "rf", "pz"} {
+		for _, k := range []string{"pp", "ph", "rf", "pz", "gc"} {
 			if kv[k] != "" {
 				base += " " + k + "=" + kv[k]
 			}
@@ -425,6 +462,7 @@ func execHQFlow(in string) Result {
 	var pev, fev, handed, seeds []string
 	children := map[string]int{} // id -> children announced at finish
 	nFail, timerBatch := 0, false
+	getFails := 0
 	effB := bsize
 	if effB == 0 {
 		effB = 100
@@ -464,14 +502,21 @@ func execHQFlow(in string) Result {
 			}
 		case "G":
 			tags["get:"+e.Res] = true
+			var one []string
 			for _, u := range e.Batch {
 				_, err := url.ParseRequestURI(unhex(u[1]))
-				handed = append(handed, fmt.Sprintf("(HU %s %s %s %s, %s)", coqHexS(u[0]), coqHexS(u[1]), coqHexS(u[2]), coqHexS(u[3]), coqBool(err == nil)))
+				one = append(one, fmt.Sprintf("(HU %s %s %s %s, %s)", coqHexS(u[0]), coqHexS(u[1]), coqHexS(u[2]), coqHexS(u[3]), coqBool(err == nil)))
 				if err != nil {
 					// hq.consumerSender hands an unparsable URL to the finisher itself
 					fev = append(fev, fmt.Sprintf("FR %s %s", coqHexS(u[0]), coqN(0)))
 					children[u[0]] = 0
 				}
+			}
+			if e.Res == "O" {
+				handed = append(handed, "Some "+coqList(one))
+			} else {
+				handed = append(handed, "None")
+				getFails++
 			}
 		case "S":
 			seeds = append(seeds, fmt.Sprintf("SD %s %s %s %s", coqHexS(e.ID), coqHexS(e.V), coqHexS(e.Via), coqN(e.Hops)))
@@ -531,6 +576,12 @@ func execHQFlow(in string) Result {
 			fev[i] = frs[k]
 		}
 		tags["real-finisher"] = true
+	}
+	if gc := atoiDef(h.kv["gc"], 0); gc > 1 {
+		tags[fmt.Sprintf("getconc:%d", gc)] = true
+		if getFails > 0 {
+			tags["getconc:sub-fetch-failed"] = true
+		}
 	}
 	if res.PauseDuringOutage {
 		tags["pause-during-outage"] = true
